@@ -16,6 +16,14 @@ const preludeStd = `(declare-fun lower (B) B)
 (declare-fun upper (B) B)
 (declare-fun trim (B) B)
 (declare-fun repeat (B Int) B)
+(declare-fun utdiv (Int Int) Int)
+(declare-fun utmod (Int Int) Int)
+(declare-fun imul (Int Int) Int)
+(assert (forall ((a Int) (b Int)) (! (= (imul a b) (imul b a)) :pattern ((imul a b)))))
+(assert (forall ((a Int)) (! (and (= (imul a 0) 0) (= (imul a 1) a)) :pattern ((imul a 0)) :pattern ((imul a 1)))))
+(declare-fun be32 (Int) B)
+(assert (forall ((n Int)) (! (= (blen (be32 n)) 4) :pattern ((be32 n)))))
+(assert (forall ((n Int) (m Int)) (! (=> (and (<= 0 n) (< n 4294967296) (<= 0 m) (< m 4294967296) (= (be32 n) (be32 m))) (= n m)) :pattern ((be32 n) (be32 m)))))
 (declare-fun lead (B) Int)
 (declare-fun trail (B) Int)
 (assert (forall ((x B)) (! (and (<= 0 (lead x)) (<= 0 (trail x)) (<= (+ (lead x) (trail x)) (blen x)) (= (trim x) (sub x (lead x) (- (blen x) (trail x))))) :pattern ((trim x)))))
@@ -89,6 +97,10 @@ func (f *frame) stdlib(i *ssa.Call, full string, args []T, st *State, pc string)
 		}
 		g.writeHeap(st, h, "(ptr "+sl.S+")", na.S)
 		return []T{g.s.def(i.Name(), T{"(slc (ptr " + sl.S + ") (off " + sl.S + ") " + nn.S + " (snil " + sl.S + "))", "Slc"})}, pc, true
+	}
+	if full == "(encoding/binary.bigEndian).AppendUint32" {
+		// T-STD: appends the 4-byte big-endian rendering be32(n) of n
+		return nb("(cat (val " + args[1].S + ") (be32 " + args[2].S + "))"), pc, true
 	}
 	switch full {
 	case "bytes.Compare", "strings.Compare":
